@@ -482,6 +482,23 @@ def _run_transport(ctx, drv, rng, depths, rounds):
                         ctx.sample({'op': 'transport', 'scenario': sc})
 
 
+def _run_transport_codes(ctx, drv, rng):
+    """every non-zero completion code on a failing Send Message layer THROUGH THE TRANSPORT (depth 2: the only
+    layer; depth 3: alternating layers), without and with a retry budget: the caller must get that code"""
+    for cc in range(1, 256):
+        for d, mr in ((2, 0), (3, 2)) if cc % 2 else ((3, 0), (2, 2)):
+            if ctx.time_left() < 20:
+                ctx.notes.append('transport code sweep stopped early (time budget)')
+                return
+            sc = {'routing': gen_routing(rng, d), 'slave': 0x81, 'target': rnglib.boundary_int(rng, 8),
+                  'lun': rng.randrange(4), 'netfn': rng.randrange(32) * 2, 'cmd': gen_hdr(rng)[6],
+                  'data': lean.hexs(gen_bytes(rng, rng.randrange(0, 5))), 'seq0': rng.randrange(64), 'acks': 0,
+                  'final': 'error', 'max_retries': mr, 'body': '00', 'fail_layer': (cc // 2) % (d - 1), 'cc': cc}
+            ctx.case(('transport-cc', d, mr, cc, sc['fail_layer']))
+            ctx.count('transport:error-code-sweep')
+            judge_transport(ctx, drv, sc)
+
+
 def run(ctx):
     drv = ctx.driver('drv_c09')
     if drv.ask('ping') != 'pong':
@@ -494,6 +511,7 @@ def run(ctx):
     _run_encode(ctx, drv, rng, depths, 250 if quick else 1500)
     _run_unwrap(ctx, drv, rng, depths[-1], 100 if quick else 400, codes)
     _run_transport(ctx, drv, rng, depths, 12 if quick else 60)
+    _run_transport_codes(ctx, drv, rng)
 
 
 def search(ctx):
